@@ -85,6 +85,8 @@ void lp_polynomial_ensure_order(lp_polynomial_t* A) {
 }
 
 void lp_polynomial_set_context(lp_polynomial_t* A, const lp_polynomial_context_t* ctx) {
+  // A is about to be overwritten, the cached hash is no longer valid
+  A->hash = 0;
   if (A->ctx != ctx) {
     if (A->ctx && A->external) {
       lp_polynomial_context_detach((lp_polynomial_context_t*)A->ctx);
@@ -121,9 +123,9 @@ lp_polynomial_t* lp_polynomial_new_from_coefficient(const lp_polynomial_context_
 void lp_polynomial_construct_copy(lp_polynomial_t* A, const lp_polynomial_t* from) {
   A->ctx = 0;
   A->external = 0;
-  A->hash = from->hash;
   lp_polynomial_set_context(A, from->ctx);
   coefficient_construct_copy(A->ctx, &A->data, &from->data);
+  A->hash = from->hash;
 }
 
 /** Construct a simple polynomial c*x^n */
@@ -435,6 +437,7 @@ void lp_polynomial_add_monomial(lp_polynomial_t* S, const lp_monomial_t* M) {
 
   lp_polynomial_external_clean(S);
 
+  S->hash = 0;
   coefficient_add_monomial(S->ctx, &S->data, M);
 
   if (trace_is_enabled("polynomial")) {
@@ -566,6 +569,7 @@ void lp_polynomial_add_mul(lp_polynomial_t* S, const lp_polynomial_t* A1, const 
   lp_polynomial_external_clean(A1);
   lp_polynomial_external_clean(A2);
 
+  S->hash = 0;
   coefficient_add_mul(ctx, &S->data, &A1->data, &A2->data);
 }
 
@@ -580,6 +584,7 @@ void lp_polynomial_sub_mul(lp_polynomial_t* S, const lp_polynomial_t* A1, const 
   lp_polynomial_external_clean(A1);
   lp_polynomial_external_clean(A2);
 
+  S->hash = 0;
   coefficient_sub_mul(ctx, &S->data, &A1->data, &A2->data);
 }
 
@@ -1039,6 +1044,7 @@ void lp_polynomial_resultant(lp_polynomial_t* res, const lp_polynomial_t* A, con
   lp_polynomial_external_clean(B);
 
   // Compute
+  res->hash = 0;
   coefficient_resultant(ctx, &res->data, &A->data, &B->data);
 
   if (trace_is_enabled("polynomial")) {
@@ -2400,10 +2406,12 @@ void lp_polynomial_reduce_degree_Zp(lp_polynomial_t *R, const lp_polynomial_t *A
   const lp_polynomial_context_t *ctx = A->ctx;
 
   if (R == A) {
+    R->hash = 0;
     coefficient_reduce_Zp(ctx, &R->data);
   } else {
     lp_polynomial_t tmp;
     lp_polynomial_construct_copy(&tmp, A);
+    tmp.hash = 0;
     coefficient_reduce_Zp(ctx, &tmp.data);
     lp_polynomial_swap(&tmp, R);
     lp_polynomial_destruct(&tmp);
